@@ -19,6 +19,10 @@ use uuid::Uuid;
 /// milliseconds the mock session server waits before it answers (set by the histories below)
 pub static MOCK_DELAY_MS: AtomicU64 = AtomicU64::new(0);
 
+/// what the mock session server answers to the next requests (front first): an HTTP status, or 0 for
+/// "close the connection without answering"; when empty it answers 200 with a profile
+pub static MOCK_PLAN: Mutex<Vec<u16>> = Mutex::new(Vec::new());
+
 pub async fn mock_server(log: Arc<Mutex<Vec<String>>>) -> std::net::SocketAddr {
     let listener = tokio::net::TcpListener::bind("127.0.0.1:0").await.expect("bind");
     let addr = listener.local_addr().unwrap();
@@ -49,6 +53,21 @@ pub async fn mock_server(log: Arc<Mutex<Vec<String>>>) -> std::net::SocketAddr {
                     let d = MOCK_DELAY_MS.load(Ordering::Relaxed);
                     if d > 0 {
                         tokio::time::sleep(std::time::Duration::from_millis(d)).await;
+                    }
+                    let planned = {
+                        let mut p = MOCK_PLAN.lock().unwrap();
+                        if p.is_empty() { None } else { Some(p.remove(0)) }
+                    };
+                    match planned {
+                        Some(0) => return,
+                        Some(code) if code != 200 => {
+                            let resp = format!("HTTP/1.1 {code} Planned\r\ncontent-length: 0\r\n\r\n");
+                            if sock.write_all(resp.as_bytes()).await.is_err() {
+                                return;
+                            }
+                            continue;
+                        }
+                        _ => {}
                     }
                     let body = br#"{"id":"069a79f444e94726a5befca90e38aaf5","name":"FromSessionServer","properties":[]}"#;
                     let resp = format!("HTTP/1.1 200 OK\r\ncontent-type: application/json\r\ncontent-length: {}\r\n\r\n", body.len());
@@ -411,6 +430,44 @@ pub fn run(cli: Cli) -> ! {
                 }
             }
         }
+        // A session server that fails: refusals, server errors, dropped connections. Whether and how often
+        // the adapter asks again is its business; every request it sends must still be the one request the
+        // statement describes.
+        if cli.replay.is_none() || cli.replay.as_ref().is_some_and(|c| c.get("plan").is_some()) {
+            let plans: Vec<Vec<u16>> = vec![vec![503], vec![500, 502], vec![0], vec![204], vec![403], vec![429], vec![503, 503, 503], vec![0, 0], vec![504, 0, 500]];
+            let some: Vec<&str> = vec!["Notch", "Victim&serverId=0", "a#", "a b", "é😀", "%26", "a&username=b", "", "a?x=1", "../../x", "\n", "+"];
+            for plan in &plans {
+                for name in &some {
+                    let sid = "srv";
+                    let secret = &secrets_by_sid[1][0];
+                    let adapter = MojangAdapter::default().with_server_id(sid.to_string());
+                    let mut all = sid.as_bytes().to_vec();
+                    all.extend_from_slice(secret);
+                    all.extend_from_slice(&pubkey);
+                    let hash = minecraft_hex(&sha1(&all));
+                    log.lock().unwrap().clear();
+                    *MOCK_PLAN.lock().unwrap() = plan.clone();
+                    let uuid = Uuid::from_u128(7);
+                    let r = tokio::time::timeout(std::time::Duration::from_secs(8), adapter.authenticate(&client, ("h", 1), 769, (name, &uuid), secret, &pubkey)).await;
+                    MOCK_PLAN.lock().unwrap().clear();
+                    let seen: Vec<String> = log.lock().unwrap().clone();
+                    let replay = json!({"name": name, "plan": plan});
+                    if r.is_err() {
+                        rep.violation(Violation { key: "request-hangs:failing-session-server".into(), text: format!("name {name:?}, session server answers {plan:?}: no result within 8 s"), replay: replay.clone(), weight: 50 });
+                    }
+                    if plan[0] != 200 && seen.len() == 1 && matches!(r, Ok(Ok(_))) && plan[0] != 0 {
+                        rep.violation(Violation { key: "granted-although-session-server-refused".into(), text: format!("name {name:?}: the only request was answered {} and the adapter still vouched", plan[0]), replay: replay.clone(), weight: 50 });
+                    }
+                    for (i, line) in seen.iter().enumerate() {
+                        requests.fetch_add(1, Ordering::Relaxed);
+                        if let Some((k, t)) = judge_request(line, name, &hash) {
+                            rep.violation(Violation { key: format!("{k}:request-{}-after-failures", i + 1), text: format!("claimed name {name:?}, session server answers {plan:?}: request #{} of {}: {t}; request line {line:?}", i + 1, seen.len()), replay: replay.clone(), weight: 50 + i as u64 });
+                            break;
+                        }
+                    }
+                }
+            }
+        }
     });
     if cli.replay.is_none() || cli.replay.as_ref().is_some_and(|c| c.get("e2e").is_some()) {
         end_to_end(&rep, &requests);
@@ -422,7 +479,7 @@ pub fn run(cli: Cli) -> ! {
     rep.set("requests_captured", json!(n));
     rep.set("names_refused_by_the_client_library", json!(errors.load(Ordering::Relaxed)));
     rep.set("exhaustive", json!(true));
-    rep.set("rule", json!("every name X, aXb for X in a 24-symbol alphabet (a & = # ? % + space / \\ . : @ ; \" < CR LF TAB NUL é 😀 %26 ../), 15 targeted payloads, every XY and pXYq, every control byte alone and inside A_41, and in thorough every XYZ over a reduced alphabet of 12; x server id {\"\", \"srv\"}, shared secrets rotating over up to 30 digest shapes (sign x last byte x leading zero nibbles); the raw request line recorded by the mock is parsed independently. Plus 8 whole connections (real Listener + Connection + MojangAdapter over TCP: login and transfer intents, names with special characters, stale / foreign / forged / valid cookies of another name) whose request must ask about the claimed name and that connection's hash, and 3 histories of 2-3 connections claiming the same name with different shared secrets, one after the other and overlapping while the session server takes 600 ms, each of which must cause exactly one request with its own hash. Non-trivial = the name contains a character outside [A-Za-z0-9_]."));
+    rep.set("rule", json!("every name X, aXb for X in a 24-symbol alphabet (a & = # ? % + space / \\ . : @ ; \" < CR LF TAB NUL é 😀 %26 ../), 15 targeted payloads, every XY and pXYq, every control byte alone and inside A_41, and in thorough every XYZ over a reduced alphabet of 12; x server id {\"\", \"srv\"}, shared secrets rotating over up to 30 digest shapes (sign x last byte x leading zero nibbles); the raw request line recorded by the mock is parsed independently. Plus 8 whole connections (real Listener + Connection + MojangAdapter over TCP: login and transfer intents, names with special characters, stale / foreign / forged / valid cookies of another name) whose request must ask about the claimed name and that connection's hash, and 3 histories of 2-3 connections claiming the same name with different shared secrets, one after the other and overlapping while the session server takes 600 ms, each of which must cause exactly one request with its own hash; and 12 names x 9 answer plans of a failing session server (5xx, 4xx, 204, dropped connections, several in a row) where every request the adapter sends, first or repeated, is judged the same way. Non-trivial = the name contains a character outside [A-Za-z0-9_]."));
     rep.sample(json!({"name": "Victim&serverId=0", "server_id": "srv", "expect": "one username parameter decoding to the whole name, one serverId equal to the hash"}));
     rep.sample(json!({"name": "a#", "expect": "username decodes to 'a#'; no raw # in the request target"}));
     rep.sample(json!({"name": names[names.len() / 2]}));
